@@ -42,6 +42,14 @@ pub enum Q {
 }
 
 impl Q {
+    fn target(&self) -> Option<u16> {
+        Some(match self {
+            Q::WmcReal(i, _) | Q::WmcFf32(i, _) | Q::WmcFf64(i, _) | Q::WmcEu(i, _) | Q::WmcComplex(i, _) | Q::WmcPoly(i, _) | Q::WmcBool(i, _) => *i,
+            Q::Evaluate(i, _) | Q::CountNodes(i) | Q::SemHash32(i) | Q::SemHash64(i) => *i,
+            Q::MarginalMap(i, _, _) | Q::Meu(i, _, _) | Q::BbReal(i, _, _) | Q::BbEu(i, _, _) => *i,
+            Q::Smooth(i, _) | Q::Condition(i, _, _) | Q::ConditionModel(i, _) | Q::Exists(i, _) => *i,
+        })
+    }
     fn class(&self) -> &'static str {
         match self {
             Q::WmcReal(..) => "real",
@@ -256,14 +264,29 @@ fn build<'a, T: IteTable<'a, BddPtr<'a>> + Default>(b: &'a RobddBuilder<'a, T>, 
     (run.pool, run.n)
 }
 
-fn fresh_answer<'a, T: IteTable<'a, BddPtr<'a>> + Default>(b: &'a RobddBuilder<'a, T>, case: &Case, q: &Q) -> Ans {
-    let (pool, n) = build(b, case);
+/// queries that are builder operations: their results join the pool (in the long-lived builder and in the
+/// fresh copy alike), so that later queries also run on smoothed / conditioned / quantified diagrams that
+/// share nodes with the rest of the pool
+fn produces_diagram(q: &Q) -> bool {
+    matches!(q, Q::Smooth(..) | Q::Condition(..) | Q::ConditionModel(..) | Q::Exists(..))
+}
+
+fn fresh_answer<'a, T: IteTable<'a, BddPtr<'a>> + Default>(b: &'a RobddBuilder<'a, T>, case: &Case, q: &Q, prior: &[Q]) -> Ans {
+    let (mut pool, n) = build(b, case);
+    for pq in prior.iter().filter(|x| produces_diagram(x)) {
+        let mut extra = Vec::new();
+        let _ = answer(b, &pool, n, pq, &mut extra);
+        for r in extra {
+            pool.push((r, bdd_tt(r)));
+        }
+    }
     let mut extra = Vec::new();
     answer(b, &pool, n, q, &mut extra)
 }
 
 fn go<'a, T: IteTable<'a, BddPtr<'a>> + Default>(b: &'a RobddBuilder<'a, T>, case: &Case, st: &mut Stats) -> CaseResult {
-    let (pool, n) = build(b, case);
+    let (mut pool, n) = build(b, case);
+    let base_len = pool.len();
     if let Some(m) = scratch_clean(&pool, &[]) {
         return fail("C10/scratch-left-behind", format!("after building the pool: {}", m));
     }
@@ -281,7 +304,7 @@ fn go<'a, T: IteTable<'a, BddPtr<'a>> + Default>(b: &'a RobddBuilder<'a, T>, cas
         }
         // the same query on a freshly built copy of the pool, in a brand-new builder
         let cfg = case.cfg.clone();
-        let want: Ans = with_bdd_builder!(&cfg, fresh_answer(case, q));
+        let want: Ans = with_bdd_builder!(&cfg, fresh_answer(case, q, &case.queries[..i]));
         ensure!(
             got == want,
             format!("C10/answer-depends-on-history:{}", q.class()),
@@ -298,6 +321,14 @@ fn go<'a, T: IteTable<'a, BddPtr<'a>> + Default>(b: &'a RobddBuilder<'a, T>, cas
         }
         seen_q.push(q);
         st.bump(&format!("q.{}", q.class()));
+        if !produces_diagram(q) {
+            if let Some(ix) = q.target() {
+                st.flag("query_on_a_diagram_produced_by_an_earlier_query", pick(ix, pool.len()) >= base_len);
+            }
+        }
+        for r in extra {
+            pool.push((r, bdd_tt(r)));
+        }
     }
     // sharing among the pool entries that were queried
     let mut owners: std::collections::HashMap<*const BddNode<'a>, usize> = std::collections::HashMap::new();
@@ -390,11 +421,26 @@ pub enum SQ {
     SemHash64(u16),
     Evaluate(u16, u8),
     Condition(u16, u8, bool),
-    /// queries on the top-down diagram
-    DWmcReal(Vec<u8>),
-    DCountNodes,
-    DCondition(u8, bool),
-    DSemHash64,
+    WmcFf32(u16, Vec<u8>),
+    WmcComplex(u16, Vec<u8>),
+    WmcPoly(u16, Vec<u8>),
+    WmcBool(u16, Vec<u8>),
+    Exists(u16, u8),
+    /// queries on the top-down diagrams (index into the list: standard store, semantic store, then the
+    /// results of earlier DCondition queries)
+    DWmcReal(u16, Vec<u8>),
+    DCountNodes(u16),
+    DCondition(u16, u8, bool),
+    DSemHash64(u16),
+    DEvaluate(u16, u8),
+    DWmcEu(u16, Vec<u8>),
+    DMarginalMap(u16, u8, Vec<u8>),
+    DMeu(u16, u8, Vec<u8>),
+    DBbReal(u16, u8, Vec<u8>),
+}
+
+fn sq_produces_diagram(q: &SQ) -> bool {
+    matches!(q, SQ::Condition(..) | SQ::Exists(..) | SQ::DCondition(..))
 }
 
 #[derive(Clone, Debug, Serialize, Deserialize)]
@@ -411,23 +457,33 @@ struct World<'a> {
     sb: &'a CompressionSddBuilder<'a>,
     db: &'a StandardDecisionNNFBuilder<'a>,
     pool: Vec<(SddPtr<'a>, Tt)>,
-    d: BddPtr<'a>,
+    /// top-down diagrams: [standard store, semantic store (64-bit field), conditioned results...]
+    ds: Vec<(BddPtr<'a>, bool)>,
     n: usize,
     dn: usize,
 }
 
-fn build_world<'a>(sb: &'a CompressionSddBuilder<'a>, db: &'a StandardDecisionNNFBuilder<'a>, case: &SddCase, dn: usize) -> World<'a> {
+type SemStore<'a> = rsdd::builder::decision_nnf::SemanticDecisionNNFBuilder<'a, { primes::U64_LARGEST }>;
+
+fn build_world<'a>(
+    sb: &'a CompressionSddBuilder<'a>,
+    db: &'a StandardDecisionNNFBuilder<'a>,
+    xb: &'a SemStore<'a>,
+    case: &SddCase,
+    dn: usize,
+) -> World<'a> {
     let shape = case.vt.shape();
     let mut run = SddRun::new(sb, shape.leaves());
     for op in case.ops.iter() {
         run.step(op);
     }
     let d = db.compile_cnf_topdown(&case.cnf.to_rsdd());
+    let d2 = xb.compile_cnf_topdown(&case.cnf.to_rsdd());
     World {
         sb,
         db,
         pool: run.pool,
-        d,
+        ds: vec![(d, true), (d2, false)],
         n: shape.leaves().len(),
         dn,
     }
@@ -435,6 +491,7 @@ fn build_world<'a>(sb: &'a CompressionSddBuilder<'a>, db: &'a StandardDecisionNN
 
 fn sdd_answer<'a>(w: &World<'a>, q: &SQ, extra_s: &mut Vec<SddPtr<'a>>, extra_d: &mut Vec<BddPtr<'a>>) -> Ans {
     let at = |i: &u16| w.pool[pick(*i, w.pool.len())].0;
+    let dat = |k: &u16| w.ds[pick(*k, w.ds.len())].0;
     match q {
         SQ::WmcReal(i, s) => Ans::F(at(i).unsmoothed_wmc(&real_params(w.n, s, true)).0),
         SQ::WmcFf64(i, s) => Ans::U(at(i).unsmoothed_wmc(&ff_params::<{ primes::U64_LARGEST }>(w.n, s)).value()),
@@ -454,40 +511,122 @@ fn sdd_answer<'a>(w: &World<'a>, q: &SQ, extra_s: &mut Vec<SddPtr<'a>>, extra_d:
             extra_s.push(r);
             Ans::Diagram(sdd_tt(r), 0.0)
         }
-        SQ::DWmcReal(s) => Ans::F(w.d.unsmoothed_wmc(&real_params(w.dn, s, true)).0),
-        SQ::DCountNodes => Ans::N(w.d.count_nodes()),
-        SQ::DSemHash64 => Ans::U(w.d.semantic_hash(&create_semantic_hash_map::<{ primes::U64_LARGEST }>(w.dn.max(1))).value()),
-        SQ::DCondition(v, val) => {
+        SQ::WmcFf32(i, s) => Ans::U(at(i).unsmoothed_wmc(&ff_params::<{ primes::U32_SMALL }>(w.n, s)).value()),
+        SQ::WmcComplex(i, s) => {
+            let mut p = WmcParams::<Complex>::default();
+            for v in 0..w.n {
+                let a = (sel(s, v, 0) % 9) as f64 / 8.0;
+                let bi = (sel(s, v, 1) % 5) as f64 - 2.0;
+                p.set_weight(VarLabel::new_usize(v), Complex { re: 1.0 - a, im: -bi }, Complex { re: a, im: bi });
+            }
+            let r = at(i).unsmoothed_wmc(&p);
+            Ans::Pair(r.re, r.im)
+        }
+        SQ::WmcPoly(i, s) => {
+            let mut p = WmcParams::<Polynomial<RealSemiring>>::default();
+            for v in 0..w.n {
+                let mut hi = Polynomial::<RealSemiring>::zero();
+                hi.coefficients[0] = RealSemiring((sel(s, v, 0) % 3) as f64);
+                hi.coefficients[1] = RealSemiring((sel(s, v, 1) % 3) as f64 - 1.0);
+                hi.len = 2;
+                let mut lo = Polynomial::<RealSemiring>::zero();
+                lo.coefficients[0] = RealSemiring(1.0 - hi.coefficients[0].0);
+                lo.coefficients[1] = RealSemiring(-hi.coefficients[1].0);
+                lo.len = 2;
+                p.set_weight(VarLabel::new_usize(v), lo, hi);
+            }
+            let r = at(i).unsmoothed_wmc(&p);
+            Ans::Vecf(r.coefficients.iter().map(|c| c.0).collect())
+        }
+        SQ::WmcBool(i, s) => {
+            let mut p = WmcParams::<BooleanSemiring>::default();
+            for v in 0..w.n {
+                p.set_weight(VarLabel::new_usize(v), BooleanSemiring(sel(s, v, 0) & 1 == 1), BooleanSemiring(sel(s, v, 1) & 1 == 1));
+            }
+            Ans::B(at(i).unsmoothed_wmc(&p).0)
+        }
+        SQ::Exists(i, v) => {
+            let v = ((*v as usize) * w.n) >> 8;
+            let r = w.sb.exists(at(i), VarLabel::new_usize(v));
+            extra_s.push(r);
+            Ans::Diagram(sdd_tt(r), 0.0)
+        }
+        SQ::DWmcReal(k, s) => Ans::F(dat(k).unsmoothed_wmc(&real_params(w.dn, s, true)).0),
+        SQ::DWmcEu(k, s) => {
+            let r = dat(k).unsmoothed_wmc(&eu_params(w.dn, s));
+            Ans::Pair(r.0, r.1)
+        }
+        SQ::DCountNodes(k) => Ans::N(dat(k).count_nodes()),
+        SQ::DSemHash64(k) => Ans::U(dat(k).semantic_hash(&create_semantic_hash_map::<{ primes::U64_LARGEST }>(w.dn.max(1))).value()),
+        SQ::DEvaluate(k, bits) => {
+            let asg: Vec<bool> = (0..w.dn).map(|v| (bits >> v) & 1 == 1).collect();
+            Ans::B(dat(k).evaluate(&asg))
+        }
+        SQ::DMarginalMap(k, mask, s) => {
+            let (v, m) = dat(k).marginal_map(&qvars(w.dn, *mask), w.dn, &real_params(w.dn, s, true));
+            Ans::Opt(v, 0.0, model_vec(&m, w.dn))
+        }
+        SQ::DBbReal(k, mask, s) => {
+            let (v, m) = dat(k).bb::<RealSemiring>(&qvars(w.dn, *mask), w.dn, &real_params(w.dn, s, true));
+            Ans::Opt(v.0, 0.0, model_vec(&m, w.dn))
+        }
+        SQ::DMeu(k, mask, s) => {
+            let (v, m) = dat(k).meu(&qvars(w.dn, *mask), w.dn, &eu_params(w.dn, s));
+            Ans::Opt(v.0, v.1, model_vec(&m, w.dn))
+        }
+        SQ::DCondition(k, v, val) => {
             if w.dn == 0 {
                 return Ans::N(0);
             }
             let v = ((*v as usize) * w.dn) >> 8;
-            let r = w.db.condition(w.d, VarLabel::new_usize(v), *val);
+            // conditioning goes through the builder that owns the diagram; diagrams of the semantic store are
+            // only queried, not conditioned here (C06 conditions them)
+            let (d, std_owned) = w.ds[pick(*k, w.ds.len())];
+            if !std_owned {
+                return Ans::N(1);
+            }
+            let r = w.db.condition(d, VarLabel::new_usize(v), *val);
             extra_d.push(r);
             Ans::Diagram(bdd_tt(r), 0.0)
         }
     }
 }
 
-fn mk_builders<'x>(vt: &VtreeCase, dn: usize) -> (CompressionSddBuilder<'x>, StandardDecisionNNFBuilder<'x>) {
+fn mk_builders<'x>(vt: &VtreeCase, dn: usize) -> (CompressionSddBuilder<'x>, StandardDecisionNNFBuilder<'x>, SemStore<'x>) {
     rsdd::verif_hooks::set_unique_table_capacity(Some(32));
     let sb = CompressionSddBuilder::new(vt.to_vtree());
     let db = StandardDecisionNNFBuilder::new(VarOrder::linear_order(dn));
+    let xb = SemStore::new(VarOrder::linear_order(dn));
     rsdd::verif_hooks::set_unique_table_capacity(None);
-    (sb, db)
+    (sb, db, xb)
 }
 
-fn fresh_sdd_answer(case: &SddCase, dn: usize, q: &SQ) -> Ans {
-    let (sb2, db2) = mk_builders(&case.vt, dn);
-    let w2 = build_world(&sb2, &db2, case, dn);
+fn absorb<'a>(w: &mut World<'a>, es: Vec<SddPtr<'a>>, ed: Vec<BddPtr<'a>>) {
+    for r in es {
+        w.pool.push((r, sdd_tt(r)));
+    }
+    for r in ed {
+        w.ds.push((r, true));
+    }
+}
+
+fn fresh_sdd_answer(case: &SddCase, dn: usize, q: &SQ, prior: &[SQ]) -> Ans {
+    let (sb2, db2, xb2) = mk_builders(&case.vt, dn);
+    let mut w2 = build_world(&sb2, &db2, &xb2, case, dn);
+    // diagram-producing queries are builder operations: replay them so that the pools line up
+    for pq in prior.iter().filter(|x| sq_produces_diagram(x)) {
+        let (mut es, mut ed) = (Vec::new(), Vec::new());
+        let _ = sdd_answer(&w2, pq, &mut es, &mut ed);
+        absorb(&mut w2, es, ed);
+    }
     sdd_answer(&w2, q, &mut Vec::new(), &mut Vec::new())
 }
 
 pub fn run_sdd(case: &SddCase, st: &mut Stats) -> CaseResult {
     let cnf = case.cnf.to_rsdd();
     let dn = cnf.num_vars();
-    let (sb, db) = mk_builders(&case.vt, dn);
-    let w = build_world(&sb, &db, case, dn);
+    let (sb, db, xb) = mk_builders(&case.vt, dn);
+    let mut w = build_world(&sb, &db, &xb, case, dn);
     let clean = |w: &World, es: &[SddPtr], ed: &[BddPtr]| -> Option<String> {
         for p in w.pool.iter().map(|x| x.0).chain(es.iter().copied()) {
             for nd in sdd_nodes(p) {
@@ -496,7 +635,7 @@ pub fn run_sdd(case: &SddCase, st: &mut Stats) -> CaseResult {
                 }
             }
         }
-        for p in std::iter::once(w.d).chain(ed.iter().copied()) {
+        for p in w.ds.iter().map(|x| x.0).chain(ed.iter().copied()) {
             for nd in bdd_nodes(p) {
                 if !BddPtr::Reg(nd).is_scratch_cleared() {
                     return Some(format!("a d-DNNF node on variable {} still holds scratch data", nd.var.value()));
@@ -516,7 +655,7 @@ pub fn run_sdd(case: &SddCase, st: &mut Stats) -> CaseResult {
         if let Some(m) = clean(&w, &es, &ed) {
             return fail("C10/scratch-left-behind", format!("after query #{} {:?}: {}", i, q, m));
         }
-        let want = fresh_sdd_answer(case, dn, q);
+        let want = fresh_sdd_answer(case, dn, q, &case.queries[..i]);
         ensure!(
             got == want,
             "C10/answer-depends-on-history:sdd-or-ddnnf",
@@ -531,6 +670,7 @@ pub fn run_sdd(case: &SddCase, st: &mut Stats) -> CaseResult {
         if case.queries[..i].contains(q) {
             repeated = true;
         }
+        absorb(&mut w, es, ed);
     }
     st.flag("repeated_query", repeated);
     if classes.len() >= 2 && repeated {
@@ -549,10 +689,20 @@ fn sq_strategy() -> BoxedStrategy<SQ> {
         2 => i().prop_map(SQ::SemHash64),
         2 => (i(), any::<u8>()).prop_map(|(a, b)| SQ::Evaluate(a, b)),
         3 => (i(), any::<u8>(), any::<bool>()).prop_map(|(a, v, b)| SQ::Condition(a, v, b)),
-        2 => sel_strategy().prop_map(SQ::DWmcReal),
-        2 => Just(SQ::DCountNodes),
-        2 => (any::<u8>(), any::<bool>()).prop_map(|(v, b)| SQ::DCondition(v, b)),
-        1 => Just(SQ::DSemHash64),
+        1 => (i(), sel_strategy()).prop_map(|(a, s)| SQ::WmcFf32(a, s)),
+        1 => (i(), sel_strategy()).prop_map(|(a, s)| SQ::WmcComplex(a, s)),
+        1 => (i(), sel_strategy()).prop_map(|(a, s)| SQ::WmcPoly(a, s)),
+        1 => (i(), sel_strategy()).prop_map(|(a, s)| SQ::WmcBool(a, s)),
+        2 => (i(), any::<u8>()).prop_map(|(a, v)| SQ::Exists(a, v)),
+        2 => (i(), sel_strategy()).prop_map(|(k, s)| SQ::DWmcReal(k, s)),
+        1 => (i(), sel_strategy()).prop_map(|(k, s)| SQ::DWmcEu(k, s)),
+        2 => i().prop_map(SQ::DCountNodes),
+        2 => (i(), any::<u8>(), any::<bool>()).prop_map(|(k, v, b)| SQ::DCondition(k, v, b)),
+        1 => i().prop_map(SQ::DSemHash64),
+        1 => (i(), any::<u8>()).prop_map(|(k, b)| SQ::DEvaluate(k, b)),
+        1 => (i(), any::<u8>(), sel_strategy()).prop_map(|(k, m, s)| SQ::DMarginalMap(k, m, s)),
+        1 => (i(), any::<u8>(), sel_strategy()).prop_map(|(k, m, s)| SQ::DMeu(k, m, s)),
+        1 => (i(), any::<u8>(), sel_strategy()).prop_map(|(k, m, s)| SQ::DBbReal(k, m, s)),
     ]
     .boxed()
 }
@@ -560,7 +710,7 @@ fn sq_strategy() -> BoxedStrategy<SQ> {
 impl SubCheckT for SddQueries {
     type Case = SddCase;
     const NAME: &'static str = "sdd_ddnnf_queries";
-    const RULE: &'static str = "an SDD pool (compressing builder, random vtree over <=5 variables, <=20 ops) and a top-down compiled d-DNNF of a random CNF, then <=20 queries (counts in three semirings, count_nodes, semantic_hash, evaluate, condition on both kinds) with repetitions: every answer equals the same single query on freshly built copies, and no reachable node keeps scratch data after any call. Non-trivial: >=2 kinds of query and a repeated query";
+    const RULE: &'static str = "an SDD pool (compressing builder, random vtree over <=5 variables, <=20 ops) and a top-down compiled d-DNNF of a random CNF, compiled with the standard and the hash-identified store, then <=20 queries (SDD: counts in seven semirings, count_nodes, semantic_hash, evaluate, condition, exists; top-down: real / expected-utility counts, count_nodes, semantic_hash, evaluate, marginal_map, meu, bb, condition) with repetitions, diagrams produced by condition / exists joining the pools and being queried in turn: every answer equals the same single query on freshly built copies, and no reachable node keeps scratch data after any call. Non-trivial: >=2 kinds of query and a repeated query";
     fn cases(tier: Tier) -> u32 {
         tier.pick(1200, 40_000)
     }
